@@ -12,7 +12,7 @@ def sh(cmd, timeout=3600, cwd=None, env=None):
     e = dict(os.environ)
     if env:
         e.update(env)
-    p = subprocess.run(cmd, shell=isinstance(cmd, str), cwd=cwd, capture_output=True, text=True, timeout=timeout, env=e)
+    p = subprocess.run(cmd, shell=isinstance(cmd, str), cwd=cwd, capture_output=True, text=True, errors="replace", timeout=timeout, env=e)
     return p.returncode, p.stdout + p.stderr
 
 
